@@ -2,13 +2,19 @@
  * key and to EVERY (offline_i, online_i) key pair, in list order, for every list length 0..255:
  *   hashed stream = ser33(W) || ser33(offline_0) || ser33(online_0) || ser33(offline_1) || ...   (plain SHA-256),
  *   total length 33 + 66 n, msg32 = the digest; one ring key written per list entry, inside keys[0..n).
- * (The order inside a pair - offline first - is the deployed wire behaviour; the property only needs every
- * key to occupy its own stream position.)  ser33 is the PUBLIC compressed serialization of the key object,
+ * (The order inside a pair - offline first - is PINNED to the deployed behaviour: every existing signature's
+ * message depends on it.  include/secp256k1_whitelist.h documents online first; reported as an observation.)  ser33 is the PUBLIC compressed serialization of the key object,
  * computed here by secp256k1_ec_pubkey_serialize, so nothing depends on the object layout.
  * sha256_write/_finalize: stream contracts with write log (hash_log.h); gej_add_ge_var, whitelist_tweak_pubkey:
  * oracles (ring-key algebra is residue).  Loop over the list: loop contract (unit table) / unwound (bounded). */
 #define EL_GEJ_ADD_GE_VAR
 #define EL_WL_TWEAK_PUBKEY
+#ifdef KM_WIRING     /* bounded unit: operands of the two additions and of the tweak for ring key gi, by value */
+#define EL_GHOST_INDEX
+#define EL_GEJ_ADD_GE_VAR_LOG
+#define EL_GEJ_ADD_GE_VAR_CHAIN
+#define EL_WL_TWEAK_LOG
+#endif
 #include "hash_log.h"
 #include "assumed_elements.h"
 #include "src/secp256k1.c"
@@ -17,11 +23,14 @@
 #define KM_MAX 255
 #endif
 
+#ifndef VERIF_NATIVE
+static wide km_modp(wide v) { wide p = P_(); return v >= p + p ? v - p - p : (v >= p ? v - p : v); }
+#endif
 unsigned char verif_wl_expect;     /* the byte the specification puts at stream position g_wpos (set by the harness only) */
 
 void h_wl_keys_msg(void) {
     secp256k1_context ctx;
-    INPUT(int, n_keys); INPUT(secp256k1_pubkey, sub); INPUT(uint64_t, wpos); INPUT(size_t, k);
+    INPUT(int, n_keys); INPUT(secp256k1_pubkey, sub); INPUT(uint64_t, wpos); INPUT(size_t, k); INPUT(size_t, gi);
     secp256k1_pubkey *online, *offline, watched; secp256k1_gej *keys; unsigned char msg32[32], ser[33]; size_t serlen = 33;
     int ret, covered = 0; size_t r = 0;
     __CPROVER_assume(n_keys >= 0 && n_keys <= KM_MAX && k < 32);
@@ -37,25 +46,51 @@ void h_wl_keys_msg(void) {
         if (r < 33) watched = offline[q]; else { watched = online[q]; r -= 33; }
     }
     verif_wl_expect = 0;
+#ifdef KM_WIRING
+    covered = 0;
+#endif
     if (covered) {
-        __CPROVER_assume(el_nonzero32(watched.data));        /* a valid public-key object (x != 0) */
         ret = secp256k1_ec_pubkey_serialize(&ctx, ser, &serlen, &watched, SECP256K1_EC_COMPRESSED);
-        __CPROVER_assert(ret == 1 && serlen == 33 && g_illegal == 0, "C16 keys_msg: (harness) the watched key serializes");
+        __CPROVER_assume(ret == 1 && serlen == 33);          /* a valid public-key object: one the library itself serializes */
         verif_wl_expect = ser[r];
     }
 #ifdef KM_VALID_ALL
-    {   size_t q; __CPROVER_assume(el_nonzero32(sub.data));
-        for (q = 0; q < KM_MAX; q++) if (q < (size_t)n_keys) __CPROVER_assume(el_nonzero32(online[q].data) && el_nonzero32(offline[q].data)); }
+    {   size_t q; secp256k1_ge tg;      /* every key object valid = accepted by the library's own secp256k1_pubkey_load */
+        __CPROVER_assume(secp256k1_pubkey_load(&ctx, &tg, &sub) == 1);
+        for (q = 0; q < KM_MAX; q++) if (q < (size_t)n_keys)
+            __CPROVER_assume(secp256k1_pubkey_load(&ctx, &tg, &online[q]) == 1 && secp256k1_pubkey_load(&ctx, &tg, &offline[q]) == 1);
+    }
 #endif
     HASHLOG_RESET(); g_we = 0; g_wpos = wpos; g_illegal = 0;
+#ifdef KM_WIRING
+    __CPROVER_assume(gi < 2); g_el_i = 2 * gi + 1; g_el_t = gi; g_aj_n = 0; g_aj_seen = 0; g_tw_n = 0;
+#endif
     ret = secp256k1_whitelist_compute_keys_and_message(&ctx, msg32, keys, online, offline, n_keys, &sub);
     __CPROVER_assert(g_error == 0, "C16 keys_msg: error callback never invoked");
+#ifndef KM_WIRING
     __CPROVER_assert(g_fin_n == 1 && g_w_fin && g_w_end == 33 + 66 * (uint64_t)n_keys, "C16 keys_msg: one hash over exactly 33 + 66 n bytes");
     __CPROVER_assert(g_w_started && g_w_b0 == 0 && g_w_s0 == 0x6a09e667ul && g_w_s7 == 0x5be0cd19ul, "C16 keys_msg: plain SHA-256 from the initial state");
     if (covered) __CPROVER_assert(g_w_hit && g_w_byte == verif_wl_expect, "C16 keys_msg: every stream position holds the serialized key the specification puts there (W, then offline_i, online_i for every i in order)");
     __CPROVER_assert(msg32[k] == g_w_dig[k], "C16 keys_msg: msg32 is the digest");
+#endif
 #ifdef KM_VALID_ALL
     __CPROVER_assert(g_illegal == 0, "C16 keys_msg: no callback for valid key objects");
+#endif
+#if defined(KM_WIRING) && !defined(VERIF_NATIVE)
+    if (gi < (size_t)n_keys) {      /* ring key gi = online_gi + tweak(offline_gi + W), operands by value (decoded by the library's own pubkey_load) */
+        secp256k1_ge off, on, w; int direct, swapped;
+        secp256k1_pubkey_load(&ctx, &off, &offline[gi]); secp256k1_pubkey_load(&ctx, &on, &online[gi]); secp256k1_pubkey_load(&ctx, &w, &sub);
+        /* canonical representatives (library's own normalisation), so "same point" is limb equality */
+        secp256k1_fe_normalize_var(&off.x); secp256k1_fe_normalize_var(&off.y); secp256k1_fe_normalize_var(&on.x); secp256k1_fe_normalize_var(&on.y);
+        secp256k1_fe_normalize_var(&w.x); secp256k1_fe_normalize_var(&w.y);
+#define SAMEPT(px, py, qx, qy) (FE_EQ(px, qx) && FE_EQ(py, qy))
+        direct = !g_aj_pa.infinity && fval(&g_aj_pa.z) == 1 && SAMEPT(g_aj_pa.x, g_aj_pa.y, off.x, off.y) && !g_aj_pb.infinity && SAMEPT(g_aj_pb.x, g_aj_pb.y, w.x, w.y);
+        swapped = !g_aj_pa.infinity && fval(&g_aj_pa.z) == 1 && SAMEPT(g_aj_pa.x, g_aj_pa.y, w.x, w.y) && !g_aj_pb.infinity && SAMEPT(g_aj_pb.x, g_aj_pb.y, off.x, off.y);
+        __CPROVER_assert(g_aj_seen && (direct || swapped), "C16 keys_msg: the point that is tweaked for ring key i is offline_i + W (either operand order)");
+        __CPROVER_assert(g_tw_n > gi && GEJ_EQ(g_tw_in, g_aj_prev), "C16 keys_msg: the tweak H(P)*P is applied to exactly that sum");
+        __CPROVER_assert(GEJ_EQ(g_aj_a, g_tw_out) && !g_aj_b.infinity && SAMEPT(g_aj_b.x, g_aj_b.y, on.x, on.y), "C16 keys_msg: ring key i = tweaked point + online_i");
+        __CPROVER_assert(GEJ_EQ(keys[gi], g_aj_r), "C16 keys_msg: ring key i is stored at position i of the key array");
+    }
 #endif
     if (n_keys == KM_MAX && wpos == 33 + 66 * (uint64_t)(KM_MAX - 1) + 40) REACH("keys_msg last online key of the longest list");
     if (n_keys == 0) REACH("keys_msg empty list");
